@@ -106,14 +106,14 @@ impl Storage {
     // GATES
     #[verifier::external_body]
     pub fn update_min_filtered_block_number(&self, block_number: u64)
-        requires filtered_ok(block_number) { unimplemented!() }
+        requires filtered_ok(block_number), mb_locked() /*props:C17*/ { unimplemented!() }
     #[verifier::external_body]
     pub fn add_matched_blocks(&self, start_number: u64, blocks_count: u64, matched_blocks: Vec<(Byte32, bool)>)
         requires matched_ok(start_number, blocks_count), matched_blocks@.len() > 0,
-                 matched_hashes_ok(start_number, blocks_count, matched_blocks@) { unimplemented!() }
+                 matched_hashes_ok(start_number, blocks_count, matched_blocks@), mb_locked() /*props:C17*/ { unimplemented!() }
     #[verifier::external_body]
     pub fn update_block_number(&self, block_number: u64)
-        requires block_number_ok(block_number) { unimplemented!() }
+        requires block_number_ok(block_number), mb_locked() /*props:C17*/ { unimplemented!() }
 }
 impl Peers {
     pub uninterp spec fn s_interval(&self) -> u64;     // check_point_interval (protocol constant)
